@@ -171,6 +171,10 @@ def balanced (s : Str) : Bool :=
     | some d => if c == '{' then some (d + 1) else if c == '}' then (if d == 0 then none else some (d - 1)) else some d) (some 0)
   r == some 0
 
+def smallNat (s : Str) (digits : Nat) : Option Nat := if s.length ≤ digits then natOf s else none
+
+def knownOps : List Str := [S!"nb", S!"ld", S!"lg", S!"sd", S!"is", S!"rm", S!"ps", S!"x", S!"keep"]
+
 mutual
 partial def parseProg (s : Str) : Option (List Ins) :=
   if s.isEmpty then some [] else (splitTop ';' s).mapM parseIns
@@ -178,26 +182,28 @@ partial def parseProg (s : Str) : Option (List Ins) :=
 partial def parseIns (s : Str) : Option Ins :=
   match splitTop ',' s with
   | [op] =>
-    if op = S!"ro" then some .ro else if op = S!"ub" then some .ub else if op = S!"cb" then some .cb
-    else if okToken op then some .bad else none
+    if !okToken op || knownOps.contains op then none
+    else if op = S!"ro" then some .ro else if op = S!"ub" then some .ub else if op = S!"cb" then some .cb
+    else some .bad
   | [op, a] =>
-    if op = S!"ld" then (natOf a).map .ld
-    else if op = S!"lg" then (natOf a).map .lg
+    if op = S!"ld" then (smallNat a 9).map .ld
+    else if op = S!"lg" then (smallNat a 9).map .lg
     else none
   | [op, a, b] =>
     if op = S!"nb" then do
-      let bt ← natOf a
+      let bt ← smallNat a 9
+      if !okToken b then none
       let rv ← parseRV b
       pure (.nb bt rv)
     else if op = S!"ps" then do
-      let n ← natOf b
+      let n ← smallNat b 4
       if !okToken a then none
       pure (.ps a n)
     else none
   | [op, a, b, c] =>
     if op = S!"sd" then do
+      if !okToken a || !okToken b || !okToken c then none
       let cs ← parseCoins c
-      if !okToken a || !okToken b then none
       pure (.sd a b cs)
     else if op = S!"is" || op = S!"rm" then do
       let n ← intOf c
@@ -211,8 +217,8 @@ partial def parseIns (s : Str) : Option Ins :=
 
 partial def parseX (mode tgt prog : Str) (extra : Option Str) : Option Ins := do
   let body ← unbrace prog
+  if !okToken tgt || !okToken mode then none
   let p ← parseProg body
-  if !okToken tgt then none
   let t : Tgt := if tgt = S!"self" then .self else .realm tgt
   match extra with
   | none =>
@@ -220,7 +226,7 @@ partial def parseX (mode tgt prog : Str) (extra : Option Str) : Option Ins := do
       if mode = S!"c" then .c else if mode = S!"ca" then .ca else if mode = S!"cg" then .cg
       else if mode = S!"cp" then .cp else if mode = S!"n" then .n else if mode = S!"ng" then .ng
       else .bad
-    if mode = S!"cs" || mode = S!"k" || !okToken mode then none
+    if mode = S!"cs" || mode = S!"k" then none
     pure (.x m t p)
   | some e =>
     if mode = S!"cs" then
@@ -277,25 +283,30 @@ def userOf (tok : String) : Option Nat :=
   | _ => none
 
 def depositOf (tok : String) : Option Int :=
-  match intOf tok.toList with
-  | some n => if 0 ≤ n && inI64 n then some n else none
+  match natOf tok.toList with
+  | some n => if inI64 (n : Int) then some (n : Int) else none
   | none => none
+
+/-- a coins token of an op line (`send`, `amount` fields) -/
+def coinsTok (tok : String) : Option Coins :=
+  let s := tok.toList
+  if s = S!"-" then some [] else if okToken s then parseCoins s else none
 
 def stepLine (w : World) (toks : List String) : World × String :=
   let bad := (w, "err:badop")
   match toks with
   | ["call", signer, realm, send, maxDep, prog] =>
-    match userOf signer, realmNames.find? (· = realm.toList), parseCoins send.toList, depositOf maxDep, parseScript prog with
+    match userOf signer, realmNames.find? (· = realm.toList), coinsTok send, depositOf maxDep, parseScript prog with
     | some u, some r, some sc, some md, some p => report w (step chain w (.call u (realmPath r) sc md p))
     | _, _, _, _, _ => bad
   | ["run", signer, send, maxDep, prog] =>
-    match userOf signer, parseCoins send.toList, depositOf maxDep, parseScript prog with
+    match userOf signer, coinsTok send, depositOf maxDep, parseScript prog with
     | some u, some sc, some md, some p => report w (step chain w (.run u sc md p))
     | _, _, _, _ => bad
   | ["send", signer, dst, amt] =>
-    match userOf signer, parseCoins amt.toList with
-    | some u, some cs => if okToken dst.toList then report w (step chain w (.bankSend u dst.toList cs)) else bad
-    | _, _ => bad
+    match userOf signer, coinsTok amt, resolve dst.toList with
+    | some u, some cs, some _ => report w (step chain w (.bankSend u dst.toList cs))
+    | _, _, _ => bad
   | ["price", n] =>
     match depositOf n with
     | some p => if 0 < p then ({ w with price := p }, "ok") else bad
